@@ -271,15 +271,21 @@ func checkC07(c *core.Ctx) {
 		name string
 		mod  func(in *model.Instance)
 		flag func(f *model.Flags)
+		// no admissible event exists at all (a tempo below one microsecond per quarter): acceptance itself is the violation
+		mustRefuse bool
 	}
 	var cases []unrep
+	for _, b := range []uint64{60000001, 90000000, 120000001, 4294967296, 18446744073709551615} {
+		b := b
+		cases = append(cases, unrep{fmt.Sprintf("bpm=%d", b), func(in *model.Instance) { in.BPM = b }, func(f *model.Flags) { f.BPM = b }, b > 120000000})
+	}
 	for _, b := range []uint64{1, 2, 3} {
 		b := b
-		cases = append(cases, unrep{fmt.Sprintf("bpm=%d", b), func(in *model.Instance) { in.BPM = b }, func(f *model.Flags) { f.BPM = b }})
+		cases = append(cases, unrep{fmt.Sprintf("bpm=%d", b), func(in *model.Instance) { in.BPM = b }, func(f *model.Flags) { f.BPM = b }, false})
 	}
 	for _, m := range []model.Frac{{5, 3}, {4, 6}, {7, 12}, {300, 4}, {256, 4}, {4, 256}, {3, 1024}, {1000, 1000}, {4, 100}} {
 		m := m
-		cases = append(cases, unrep{fmt.Sprintf("meter=%d/%d", m.Num, m.Den), func(in *model.Instance) { in.Meter = &m }, func(f *model.Flags) { f.Meter = fmt.Sprintf("%d/%d", m.Num, m.Den) }})
+		cases = append(cases, unrep{fmt.Sprintf("meter=%d/%d", m.Num, m.Den), func(in *model.Instance) { in.Meter = &m }, func(f *model.Flags) { f.Meter = fmt.Sprintf("%d/%d", m.Num, m.Den) }, false})
 	}
 	c.Stream("unrepresentable", len(cases)*3, func(i int, r *rand.Rand) {
 		cs := cases[i%len(cases)]
@@ -310,6 +316,10 @@ func checkC07(c *core.Ctx) {
 		if !r1.OK() {
 			c.Count("unrepresentable_refused", 1)
 			c.Nontrivial(sig)
+			return
+		}
+		if cs.mustRefuse {
+			c.Violate("unrepresentable", i, sig+":accepted", fmt.Sprintf("%s is a tempo of less than half a microsecond per quarter note, which no MIDI file can state, but crd write accepts it", cs.name), withYAML(pieceDesc(p, f), p))
 			return
 		}
 		file, derr := decodeSMF(out)
